@@ -64,6 +64,7 @@ type c19State struct {
 	ext      string
 	ret      string // non-empty: SendRequest has returned this class; it still has to read the clock
 	armed    bool   // the timeout timer exists (it is created after the request was published; time may pass before)
+	rearm    int64  // >0: a timeout pre-response was read; the new timer (now + rearm) is not created yet
 }
 
 // c19Model explores every interleaving of the environment, the clock and SendRequest and returns the set of
@@ -85,6 +86,12 @@ func c19Model(script []string) map[string]bool {
 			n.armed = true
 			n.deadline = s.now + int64(c19Timeout)
 			rec(n)
+		} else if s.rearm > 0 {
+			// time may pass between reading the pre-response and creating the new timer
+			n := s
+			n.deadline = s.now + s.rearm
+			n.rearm = 0
+			rec(n)
 		} else {
 			// SendRequest: timer
 			if s.now >= s.deadline {
@@ -102,10 +109,10 @@ func c19Model(script []string) map[string]bool {
 				} else {
 					switch m {
 					case "pre30":
-						n.deadline = s.now + int64(30*time.Millisecond)
+						n.rearm = int64(30 * time.Millisecond)
 						n.ext += "30ms,"
 					case "pre3000":
-						n.deadline = s.now + int64(3000*time.Millisecond)
+						n.rearm = int64(3000 * time.Millisecond)
 						n.ext += "3s,"
 					}
 				}
